@@ -113,8 +113,10 @@ def fresh_process_workflow(ctx, tr, zstep):
 
 def run(ctx):
     n = 40 if ctx.tier == "quick" else 1000
-    for _ in range(n):
+    for k_ in range(n):
         tr = P.gen_truth(ctx.rng)
+        if k_ % 2:
+            tr.add_gap(ctx.rng)          # a logger outage inside a dry spell: two gap-free stretches, still pieces of the truth
         one(ctx, tr, ctx.rng.choice([1.0, 0.5, 2.0, 2.5]))
     for _ in range(2 if ctx.tier == "quick" else 30):
         # tens of intervals in each curve
